@@ -2157,15 +2157,20 @@ class CollocatedIntegratedOptimizationProblem(OptimizationProblem, metaclass=ABC
                         )
 
                     if isinstance(seed_k, Timeseries):
-                        x0[inds] = (
+                        seed_k = (
                             self.interpolate(
                                 times, seed_k.times, seed_k.values, 0, 0, interpolation_method
                             )
                             .transpose()
                             .ravel()
                         )
-                    else:
-                        x0[inds] = seed_k
+
+                    if isinstance(inds, (int, np.integer)) and isinstance(seed_k, np.ndarray):
+                        # Single entry in the state vector; NumPy >= 2 no longer
+                        # converts a one-element array to a scalar on assignment.
+                        seed_k = seed_k.item()
+
+                    x0[inds] = seed_k
 
                     x0[inds] /= nominal
                 except KeyError:
